@@ -273,7 +273,7 @@ func (c *Ctx) evalAvail(v ssa.Value, pol bool, typ string, depth int) (bool, boo
 		}
 		var rets []*ssa.Return
 		for _, b := range f.Blocks {
-			if ret, ok := b.Instrs[len(b.Instrs)-1].(*ssa.Return); ok {
+			if ret, ok := asReturn(b); ok {
 				rets = append(rets, ret)
 			}
 		}
@@ -754,7 +754,7 @@ func ruleFlushHeartbeat(c *Ctx, r *Rule) {
 		r.Ob(okL, c.fnName(hb)+"|under-fill-lock", ci.Pos(), why)
 		// the only exit of the heartbeat loop is the stop flag
 		for _, b := range hb.Blocks {
-			if ret, ok := b.Instrs[len(b.Instrs)-1].(*ssa.Return); ok {
+			if ret, ok := asReturn(b); ok {
 				g := false
 				for _, l := range c.unitGuards(ret) {
 					if isLoadOfField(l.v, pipelinePkg, "Batcher", "shouldStop") && l.pol {
